@@ -221,9 +221,17 @@ class C20(Prop):
                           follow=follow)
                 rec["findings"].append(finding("C20", key, f"[{tag} {c['faults']}] {detail}", rp))
         # natural failures and invalid inputs
-        for kind in ("no_donor", "wrong_front"):
+        for kind in ("no_donor", "partial_donor", "wrong_front"):
             c = workload.clone(base)
-            if kind == "no_donor":
+            if kind == "partial_donor":
+                # everything collapses into one cluster of T points; K-1 = 3 refills are needed but the single donor
+                # (2m <= T < 4m) can serve only one or two
+                t_st = workload.stacked_points(c)
+                c["args"]["num_clusters"] = 4
+                c["args"]["min_cluster_size"] = max(1, t_st // 3)
+                c["args"]["label_switching_cost"] = dict(form="float", value=1e6, seed=0)
+                c["args"]["iteration_limit"] = 5
+            elif kind == "no_donor":
                 c["args"]["min_cluster_size"] = 5000
                 c["args"]["label_switching_cost"] = dict(form="float", value=1e6, seed=0)
                 c["args"]["iteration_limit"] = 5
@@ -232,10 +240,21 @@ class C20(Prop):
             c["faults"] = []
             out = runner.run_call(c, record=False)
             rec.absorb(out)
-            if kind == "no_donor" and (out.ok or out.exc[0] != "RuntimeError"):
-                # the run never needed repopulation (or failed earlier for another reason): not this scenario
-                if out.ok:
-                    rec.probe("no_donor_not_triggered")
+            if kind in ("no_donor", "partial_donor"):
+                # is this really the scenario?  (the recorded history says whether a repopulation was attempted
+                # with insufficient refill capacity)
+                tr = runner.run_call(c, record=True)
+                from ..machines import c08_run
+                from ..reference import repop_capacity
+                short = False
+                for p in trace.phases(tr, "repopulate"):
+                    s_in = trace.first_state(p)
+                    sz = trace.sizes(s_in)
+                    needy = sum(1 for x in sz if x < 2)
+                    if needy and repop_capacity(sz, c["args"]["min_cluster_size"]) < needy:
+                        short = True
+                if not short:
+                    rec.probe(kind + "_not_triggered")
                     continue
             f = self.judge_natural(c, kind, out)
             rec["faults"][kind] = rec["faults"].get(kind, 0) + 1
@@ -254,7 +273,7 @@ class C20(Prop):
         return rec
 
     def judge_natural(self, c, kind, out):
-        if kind == "no_donor":
+        if kind in ("no_donor", "partial_donor"):
             return judge_failed_call(out, "RuntimeError", "donor")
         # the data of this case's front end was given to the OTHER front end
         name = "ticc_joint_labels" if c["front"] == "joint" else "ticc_labels"
